@@ -27,6 +27,17 @@ type SessionState struct {
 	createdAt        time.Time           // Session创建时间
 }
 
+// clone 返回会话状态的独立副本（主密钥为新的拷贝），
+// 使得对其中一个对象主密钥的清零不会影响另一个对象。
+func (s *SessionState) clone() *SessionState {
+	cp := *s
+	if s.masterSecret != nil {
+		cp.masterSecret = make([]byte, len(s.masterSecret))
+		copy(cp.masterSecret, s.masterSecret)
+	}
+	return &cp
+}
+
 // SessionCache 会话缓存器，用于缓存TLCP连接建立后的会话信息 SessionState
 // 用于在 TLCP 协议的握手重用过程中提供会话相关的信息。
 //
